@@ -1,6 +1,7 @@
 package gen
 
 import (
+	"path/filepath"
 	"strings"
 
 	"golang.org/x/tools/go/ssa"
@@ -58,8 +59,15 @@ func InstallStubs(m *absint.Machine) {
 				return s, true // already an identifier
 			}
 			panic(&absint.RunError{Kind: "undecided", Msg: "Identifierize on composite symbolic text " + s.Debug()})
-		case name == "go/format.Source":
-			return nil, false
+		case name == "pkg/schemas.QualifiedFileName":
+			// in-memory files: the qualified name is the path joined to the parent's directory (no file system access)
+			fn, ok1 := args[0].(absint.Str).Concrete()
+			parent, ok2 := args[1].(absint.Str).Concrete()
+			if !ok1 || !ok2 {
+				panic(&absint.RunError{Kind: "undecided", Msg: "QualifiedFileName on symbolic paths"})
+			}
+			m.Assume("file-system resolution (existence, extension probing, symlinks) is replaced by: path joined to the directory of the referring file")
+			return absint.Tuple{absint.Lit(filepath.Join(filepath.Dir(parent), fn)), absint.Iface{}}, true
 		}
 		return nil, false
 	}
